@@ -74,6 +74,8 @@ type _refElem struct {
 type _refKey struct {
 	addr unsafe.Pointer
 	typ  reflect.Type
+	// length of a slice: s[:2] and s[:3] start at the same address and are different lists
+	n int
 }
 
 func refTag(tag byte) bool {
@@ -121,11 +123,14 @@ func (e *Encoder) checkEncodeRefMap(v reflect.Value) (int, bool) {
 	// nil and zero-length slices have no identity of their own (they all share address 0 or the
 	// runtime's zero base), so they are never reference targets
 	identity := addr != nil
-	if rv := UnpackPtrValue(v); rv.Kind() == reflect.Slice && rv.Len() == 0 {
-		identity = false
+	length := 0
+	if rv := UnpackPtrValue(v); rv.Kind() == reflect.Slice {
+		if length = rv.Len(); length == 0 {
+			identity = false
+		}
 	}
 
-	if elem, ok := e.refMap[_refKey{addr, typ}]; ok && identity {
+	if elem, ok := e.refMap[_refKey{addr, typ, length}]; ok && identity {
 		// the array addr is equal to the first elem, which must ignore
 		if elem.kind == kind {
 			// fmt.Printf("-----> find ref: %d, %p, %v, %v\n", elem.index, addr, kind, v)
@@ -141,7 +146,7 @@ func (e *Encoder) checkEncodeRefMap(v reflect.Value) (int, bool) {
 	if !identity {
 		return 0, false
 	}
-	e.refMap[_refKey{addr, typ}] = _refElem{kind, n}
+	e.refMap[_refKey{addr, typ, length}] = _refElem{kind, n}
 	// fmt.Printf("---> add ref: %d, %p, %v, %v\n", n, addr, kind, v)
 	return 0, false
 }
